@@ -16,7 +16,7 @@ def one(d):
         for c in checks:
             env = dict(os.environ, VERIF_REPO=wt, VERIF_EVIDENCE_DIR=os.path.join(wt, ".ev"))
             r = subprocess.run(c["quick_cmd"], shell=True, cwd="/verif", env=env, capture_output=True, text=True)
-            if r.returncode != 0:
+            if r.returncode == 1:
                 reps = [l[:300] for l in r.stdout.splitlines() if l.startswith("REPORT") or "ANALYSIS-ERROR" in l]
                 fired[c["property_id"]] = {"rc": r.returncode, "reports": reps[:3]}
         return d, fired, None
